@@ -542,7 +542,7 @@ pub struct Plan {
 impl Plan {
     pub fn for_tier(thorough: bool) -> Plan {
         if thorough {
-            Plan { budget: 1_000_000, max_bound_small: 3, max_bound_n3: 2 }
+            Plan { budget: 600_000, max_bound_small: 3, max_bound_n3: 2 }
         } else {
             Plan { budget: 300_000, max_bound_small: 2, max_bound_n3: 2 }
         }
@@ -580,6 +580,7 @@ pub struct RunOut {
     pub stopped_because: Vec<String>,
     /// the wall-clock guard fired: the last round is incomplete
     pub capped: Option<String>,
+    pub wall_s: f64,
 }
 
 fn explore_round(cfgs: &[Cfg], threads: usize, deadline: std::time::Instant) -> (Vec<Accum>, bool) {
@@ -605,11 +606,13 @@ pub fn explore_icb(base: Vec<Cfg>, plan: Plan, threads: usize, deadline: std::ti
         rounds: vec![Vec::new(); n],
         stopped_because: vec![String::new(); n],
         capped: None,
+        wall_s: 0.0,
     };
     // representative of every violation key from the lowest bound that shows it
     let mut first_seen: Vec<BTreeMap<String, (u32, bdfs::FoundV)>> = vec![BTreeMap::new(); n];
     let mut active: Vec<usize> = (0..n).collect();
     let mut b = 0u32;
+    let t_all = std::time::Instant::now();
     while !active.is_empty() {
         let round_cfgs: Vec<Cfg> = active
             .iter()
@@ -622,7 +625,7 @@ pub fn explore_icb(base: Vec<Cfg>, plan: Plan, threads: usize, deadline: std::ti
         let t0 = std::time::Instant::now();
         let (accs, capped) = explore_round(&round_cfgs, threads, deadline);
         if capped {
-            out.capped = Some(format!("wall cap reached during the round with preemption bound {b}; that round is incomplete"));
+            out.capped = Some(format!("wall cap reached during the round with preemption bound {b}; that round is incomplete and not counted (results are those of bound {})", b.saturating_sub(1)));
         }
         let total: u64 = accs.iter().map(|a| a.execs).sum();
         crate::elog(&format!(
@@ -636,6 +639,15 @@ pub fn explore_icb(base: Vec<Cfg>, plan: Plan, threads: usize, deadline: std::ti
             let i = active[k];
             for (key, v) in &acc.viol {
                 first_seen[i].entry(key.clone()).or_insert_with(|| (b, v.clone()));
+            }
+            if capped && b > 0 {
+                // incomplete round: the numbers of the last complete bound stay; violations met in
+                // the partial round are real and are kept
+                out.stopped_because[i] = format!("wall cap during the round with bound {b}");
+                for (key, v) in acc.viol {
+                    out.accs[i].viol.entry(key).or_insert(v);
+                }
+                continue;
             }
             // a schedule that ends in a hang costs about 20 ordinary ones (its unfinished tasks
             // are unwound and their stacks cannot be reused), so it weighs that much in the budget
@@ -663,9 +675,13 @@ pub fn explore_icb(base: Vec<Cfg>, plan: Plan, threads: usize, deadline: std::ti
                 }
             }
         }
+        if capped {
+            next.clear();
+        }
         active = next;
         b += 1;
     }
+    out.wall_s = t_all.elapsed().as_secs_f64();
     // counts come from the last round (it contains every schedule of the lower bounds); the
     // representative counterexample is the one with the fewest preemptions
     for i in 0..n {
@@ -779,6 +795,8 @@ pub fn sections(out: &RunOut) -> Vec<(vx::SectionStats, Vec<vx::FoundViolation>)
             st.caps_hit.push(c.clone());
         }
         st.exhaustive = st.caps_hit.is_empty();
+        let all: u64 = out.rounds.iter().map(|r| r.iter().sum::<u64>()).sum();
+        st.wall_s = out.wall_s * (st.executions + lower_rounds) as f64 / all.max(1) as f64;
         st.extra.insert("preemption_bound_completed".into(), json!(bounds.keys().next().copied().unwrap_or(0)));
         st.extra.insert("configurations_per_completed_bound".into(), json!(bounds));
         st.extra.insert("schedules_in_lower_bound_rounds_not_counted_above".into(), json!(lower_rounds));
